@@ -28,6 +28,9 @@ pub struct Reach {
 }
 
 struct W<'m, 'a> {
+    /// a block type given by index refers to that type whatever its shape (true for binaries walrus emitted:
+    /// what is written by index is referenced; false for inputs, whose simple block types walrus re-emits inline)
+    strict_block_types: bool,
     m: &'m DModule<'a>,
     r: Reach,
     wf: Vec<u32>,
@@ -123,7 +126,7 @@ impl<'m, 'a> W<'m, 'a> {
                                 Raw::MemArg { memory, .. } => self.memory(memory, "code:memarg"),
                                 Raw::Block(BlockType::FuncType(t)) => {
                                     // single-result/empty signatures are re-emitted inline by walrus: the type is then not needed
-                                    let needs = self.m.types.get(t as usize).map(|s| !(s.params.is_empty() && s.results.len() <= 1)).unwrap_or(true);
+                                    let needs = self.strict_block_types || self.m.types.get(t as usize).map(|s| !(s.params.is_empty() && s.results.len() <= 1)).unwrap_or(true);
                                     if needs {
                                         self.ty(t, "code:block-type");
                                     }
@@ -186,7 +189,13 @@ impl<'m, 'a> W<'m, 'a> {
 }
 
 pub fn reach<'m, 'a>(m: &'m DModule<'a>, extra: &ExtraRoots) -> Reach {
+    reach_opts(m, extra, false)
+}
+
+/// `strict_block_types`: see `W::strict_block_types`; used when the precision of an emitted binary is judged.
+pub fn reach_opts<'m, 'a>(m: &'m DModule<'a>, extra: &ExtraRoots, strict_block_types: bool) -> Reach {
     let mut w = W {
+        strict_block_types,
         m,
         r: Reach {
             keep: Keep {
